@@ -61,6 +61,9 @@ Gen/LintPin.vos Gen/LintPin.vok Gen/LintPin.required_vos: Gen/LintPin.v
 Gen/DriverPin.vo Gen/DriverPin.glob Gen/DriverPin.v.beautified Gen/DriverPin.required_vo: Gen/DriverPin.v 
 Gen/DriverPin.vio: Gen/DriverPin.v 
 Gen/DriverPin.vos Gen/DriverPin.vok Gen/DriverPin.required_vos: Gen/DriverPin.v 
+Gen/ExecPin.vo Gen/ExecPin.glob Gen/ExecPin.v.beautified Gen/ExecPin.required_vo: Gen/ExecPin.v 
+Gen/ExecPin.vio: Gen/ExecPin.v 
+Gen/ExecPin.vos Gen/ExecPin.vok Gen/ExecPin.required_vos: Gen/ExecPin.v 
 Sem/Scenario.vo Sem/Scenario.glob Sem/Scenario.v.beautified Sem/Scenario.required_vo: Sem/Scenario.v Core/Base.vo Core/Prog.vo Py/Sig.vo Sem/Interp.vo Sem/InterpFacts.vo Sem/Model.vo Sem/Show.vo Gen/State.vo Sem/ScnSwitch.vo Gen/Validators.vo Gen/HasPatcher.vo Gen/Contracts.vo Gen/Dispatch.vo
 Sem/Scenario.vio: Sem/Scenario.v Core/Base.vio Core/Prog.vio Py/Sig.vio Sem/Interp.vio Sem/InterpFacts.vio Sem/Model.vio Sem/Show.vio Gen/State.vio Sem/ScnSwitch.vio Gen/Validators.vio Gen/HasPatcher.vio Gen/Contracts.vio Gen/Dispatch.vio
 Sem/Scenario.vos Sem/Scenario.vok Sem/Scenario.required_vos: Sem/Scenario.v Core/Base.vos Core/Prog.vos Py/Sig.vos Sem/Interp.vos Sem/InterpFacts.vos Sem/Model.vos Sem/Show.vos Gen/State.vos Sem/ScnSwitch.vos Gen/Validators.vos Gen/HasPatcher.vos Gen/Contracts.vos Gen/Dispatch.vos
@@ -94,6 +97,9 @@ Sem/ScnLint.vos Sem/ScnLint.vok Sem/ScnLint.required_vos: Sem/ScnLint.v Core/Bas
 Sem/LintDriver.vo Sem/LintDriver.glob Sem/LintDriver.v.beautified Sem/LintDriver.required_vo: Sem/LintDriver.v Gen/DriverPin.vo
 Sem/LintDriver.vio: Sem/LintDriver.v Gen/DriverPin.vio
 Sem/LintDriver.vos Sem/LintDriver.vok Sem/LintDriver.required_vos: Sem/LintDriver.v Gen/DriverPin.vos
+Sem/LintExec.vo Sem/LintExec.glob Sem/LintExec.v.beautified Sem/LintExec.required_vo: Sem/LintExec.v Core/Base.vo
+Sem/LintExec.vio: Sem/LintExec.v Core/Base.vio
+Sem/LintExec.vos Sem/LintExec.vok Sem/LintExec.required_vos: Sem/LintExec.v Core/Base.vos
 Sem/ScnSwitch.vo Sem/ScnSwitch.glob Sem/ScnSwitch.v.beautified Sem/ScnSwitch.required_vo: Sem/ScnSwitch.v Core/Base.vo Core/Prog.vo Sem/Interp.vo Sem/Show.vo Gen/State.vo
 Sem/ScnSwitch.vio: Sem/ScnSwitch.v Core/Base.vio Core/Prog.vio Sem/Interp.vio Sem/Show.vio Gen/State.vio
 Sem/ScnSwitch.vos Sem/ScnSwitch.vok Sem/ScnSwitch.required_vos: Sem/ScnSwitch.v Core/Base.vos Core/Prog.vos Sem/Interp.vos Sem/Show.vos Gen/State.vos
@@ -235,3 +241,9 @@ Thm/C16/Driver.vos Thm/C16/Driver.vok Thm/C16/Driver.required_vos: Thm/C16/Drive
 Props/C16.vo Props/C16.glob Props/C16.v.beautified Props/C16.required_vo: Props/C16.v Core/Base.vo Sem/Model.vo Gen/HasPatcher.vo Gen/Rules.vo Gen/DriverPin.vo Sem/LintDriver.vo Thm/C16/Driver.vo
 Props/C16.vio: Props/C16.v Core/Base.vio Sem/Model.vio Gen/HasPatcher.vio Gen/Rules.vio Gen/DriverPin.vio Sem/LintDriver.vio Thm/C16/Driver.vio
 Props/C16.vos Props/C16.vok Props/C16.required_vos: Props/C16.v Core/Base.vos Sem/Model.vos Gen/HasPatcher.vos Gen/Rules.vos Gen/DriverPin.vos Sem/LintDriver.vos Thm/C16/Driver.vos
+Thm/C17/Exec.vo Thm/C17/Exec.glob Thm/C17/Exec.v.beautified Thm/C17/Exec.required_vo: Thm/C17/Exec.v Core/Base.vo Sem/LintExec.vo
+Thm/C17/Exec.vio: Thm/C17/Exec.v Core/Base.vio Sem/LintExec.vio
+Thm/C17/Exec.vos Thm/C17/Exec.vok Thm/C17/Exec.required_vos: Thm/C17/Exec.v Core/Base.vos Sem/LintExec.vos
+Props/C17.vo Props/C17.glob Props/C17.v.beautified Props/C17.required_vo: Props/C17.v Core/Base.vo Gen/ExecPin.vo Sem/LintExec.vo Thm/C17/Exec.vo
+Props/C17.vio: Props/C17.v Core/Base.vio Gen/ExecPin.vio Sem/LintExec.vio Thm/C17/Exec.vio
+Props/C17.vos Props/C17.vok Props/C17.required_vos: Props/C17.v Core/Base.vos Gen/ExecPin.vos Sem/LintExec.vos Thm/C17/Exec.vos
